@@ -504,6 +504,20 @@ def leg(ck, drv, n, workdir):
              dist={"well-formed": nwf, "not well-formed (bare comparison as operand, a cmp b ...)": len(reqs) - nwf, "judged by the javac oracle": nor})
 
 
+def leg_fragment(ck, drv, name, reqs, texts):
+    """ties JExpr.ofExpr: for the requests of an existing stream (eval / ctx / ctx2) the real Writer's text, lexed, must be the
+    lexemes of `print (ofExpr e)` of the model's expression e, and that IR tree must be well formed and re-parse to its tree"""
+    reqs2 = ["jx" + r for r in reqs]
+    replies = drv.ask(reqs2)
+    real, model = [], []
+    for rq, t, x in zip(reqs2, texts, replies):
+        toks = lex(t) if isinstance(t, str) and not t.startswith("other:") else None
+        real.append("wf=1 parse=ok ;; " + (" ".join(toks) if toks is not None else "not-java:%s" % t))
+        p = parse_reply(x)
+        model.append("wf=%s parse=%s ;; %s" % (p.get("wf"), p.get("parse"), p.get("toks")) if "toks" in p else x)
+    ck.compare(name, reqs2, real, model)
+
+
 def replay(ck, c):
     import tempfile
     import shutil
